@@ -9,6 +9,7 @@
 -/
 import Edn.Proofs.Float
 import Edn.Proofs.DoubleSpec
+import Edn.Proofs.NumberReader
 
 namespace Edn.Properties.C05
 open Edn.Model Edn.Spec Edn.Proofs Edn.Generated
@@ -65,5 +66,13 @@ example : parseDouble Cfg.core "1e23".toUTF8.toList = 0x44B52D02C7E14AF6 := by d
 example : parseDouble Cfg.core "-0.0".toUTF8.toList = 0x8000000000000000 := by decide +kernel
 example : parseDouble Cfg.core "4.9e-324".toUTF8.toList = 1 := by decide +kernel
 example : parseDouble Cfg.core "1.8e308".toUTF8.toList = 0x7FF0000000000000 := by decide +kernel
+
+/-- reader level, every configuration: a float token (sign, decimal integer part, fraction
+    and/or exponent) followed by the end of input or a terminator is consumed exactly and read
+    as the double nearest to its exact decimal value -/
+theorem float_token_reads_correctly_rounded (cfg : Cfg) (tok rest : Bytes) (h : Edn.Spec.FloatTok tok) (ht : Edn.Spec.TermStart rest) :
+    readNumber cfg (tok ++ rest) =
+      .ok (.float (let p := decimalParts tok; Edn.Spec.withSign p.1 (Edn.Spec.ofDec p.2.1 p.2.2))) rest :=
+  readNumber_float_value cfg tok rest h ht
 
 end Edn.Properties.C05
